@@ -126,9 +126,10 @@ type paramsSpec struct {
 type csOp struct {
 	Kind     string      `json:"kind"` // add | remove | adduni | removeuni | swap | send | params | block | reimport
 	Who      int         `json:"who"`
-	To       string      `json:"to,omitempty"`    // swap recipient / send target: self | uN | blockedN | pool:<denom> | next | mod
-	Pool     string      `json:"pool,omitempty"`  // counterparty denom naming the pool
-	Denom    string      `json:"denom,omitempty"` // adduni/removeuni side, send denom ("lpt:<denom>" = that pool's share token); remove with Pool "": the literal (look-alike) denom of WithdrawLiquidity
+	UpperTo  bool        `json:"upper_to,omitempty"` // swap: the recipient's address is written in upper case (bech32 allows it); not combined with blocked recipients, see DESIGN §9.3 F28
+	To       string      `json:"to,omitempty"`       // swap recipient / send target: self | uN | blockedN | pool:<denom> | next | mod
+	Pool     string      `json:"pool,omitempty"`     // counterparty denom naming the pool
+	Denom    string      `json:"denom,omitempty"`    // adduni/removeuni side, send denom ("lpt:<denom>" = that pool's share token); remove with Pool "": the literal (look-alike) denom of WithdrawLiquidity
 	In       string      `json:"in,omitempty"`
 	Out      string      `json:"out,omitempty"`
 	Buy      bool        `json:"buy,omitempty"`
@@ -703,6 +704,7 @@ func (m *csMachine) genSwap(t *rapid.T, live []*poolInfo) csOp {
 			op.A, op.B = bigHuge.String(), m.amount(t, "b", 30).String()
 		}
 		op.To = m.genRecipient(t, op.Who, op.Out != std)
+		op.UpperTo = !strings.HasPrefix(op.To, "blocked") && rapid.IntRange(0, 1<<20).Draw(t, "upper-to")%8 == 7
 		return op
 	}
 	bal := func(d string) *big.Int { return cell(m.sheet, m.user(op.Who), d) }
@@ -736,6 +738,7 @@ func (m *csMachine) genSwap(t *rapid.T, live []*poolInfo) csOp {
 			op.A, op.B = upper(t, "max", pay, bal(op.In)).String(), out.String()
 		}
 		op.To = m.genRecipient(t, op.Who, false)
+		op.UpperTo = !strings.HasPrefix(op.To, "blocked") && rapid.IntRange(0, 1<<20).Draw(t, "upper-to")%8 == 7
 		return op
 	}
 	i := rapid.IntRange(0, len(live)-1).Draw(t, "p1")
@@ -768,6 +771,7 @@ func (m *csMachine) genSwap(t *rapid.T, live []*poolInfo) csOp {
 		op.A, op.B = upper(t, "max", pay, bal(op.In)).String(), out.String()
 	}
 	op.To = m.genRecipient(t, op.Who, true)
+	op.UpperTo = !strings.HasPrefix(op.To, "blocked") && rapid.IntRange(0, 1<<20).Draw(t, "upper-to")%8 == 7
 	return op
 }
 
@@ -916,8 +920,12 @@ func (m *csMachine) build(op csOp, loosened bool) sdk.Msg {
 				out = big.NewInt(1)
 			}
 		}
+		to := rcpt.String()
+		if op.UpperTo {
+			to = strings.ToUpper(to)
+		}
 		return &cstypes.MsgSwapOrder{Input: cstypes.Input{Address: sender.String(), Coin: coin(op.In, in)},
-			Output: cstypes.Output{Address: rcpt.String(), Coin: coin(op.Out, out)}, Deadline: deadline, IsBuyOrder: op.Buy}
+			Output: cstypes.Output{Address: to, Coin: coin(op.Out, out)}, Deadline: deadline, IsBuyOrder: op.Buy}
 	case "send":
 		to, _ := m.resolve(op.To, op.Who)
 		return &banktypes.MsgSend{FromAddress: sender.String(), ToAddress: to.String(), Amount: sdk.Coins{coin(m.resolveDenom(op.Denom), bi(op.A))}}
@@ -1279,6 +1287,9 @@ func (m *csMachine) oracleC01(op csOp, before, after chain.Sheet, delta chain.De
 		if p1 == nil || (double && p2 == nil) {
 			return m.fail("swap-without-pool", "swap %+v succeeded without its pools", op)
 		}
+		if op.UpperTo {
+			m.cnt["swap-recipient-in-upper-case"]++
+		}
 		if p1.addr.Equals(rcpt) || (p2 != nil && p2.addr.Equals(rcpt)) {
 			m.cnt["swap-recipient-is-pool"]++
 			return nil // the pool's own delta mixes leg and payout; only the share value is checked
@@ -1424,6 +1435,9 @@ func (m *csMachine) oracleC02(op csOp, res chain.Result, before chain.Sheet, del
 			}
 		} else if !rcpt.Equals(sender) {
 			m.cnt["recipient-other"]++
+		}
+		if op.UpperTo {
+			m.cnt["recipient-in-upper-case"]++
 		}
 		if op.Deadline == m.c.Time().Unix() || op.Deadline == m.c.Time().Unix()+1 {
 			m.cnt["deadline-boundary-accepted"]++
